@@ -132,18 +132,17 @@ def pattern_search(pattern, string, dev):
 
 
 def reduces_to_default(schema, root, depth=0):
-    """Does this schema consist of ONE composition keyword with ONE non-trivial branch (which statham's
+    """Does this schema consist of composition keywords only, with ONE non-trivial branch (which statham's
     normal form reduces to that branch's element) whose branch declares a default?  Used only to attribute
     known finding F44 (the reduction makes the branch's default the default of the enclosing schema)."""
     if not isinstance(schema, dict) or depth > 6:
         return False
     keys = set(schema) - {"title", "description", "definitions", "_x_autotitle", "$id", "$schema"}
-    if len(keys) != 1:
+    # (several composition keywords of which all branches but one are trivial reduce the same way:
+    # `{"allOf": [true], "anyOf": [X]}` is X)
+    if not keys or not keys <= {"anyOf", "oneOf", "allOf"} or not all(isinstance(schema[k], list) for k in keys):
         return False
-    key = next(iter(keys))
-    if key not in ("anyOf", "oneOf", "allOf") or not isinstance(schema[key], list):
-        return False
-    branches = [b for b in schema[key] if b is not True and b != {}]
+    branches = [b for key in keys for b in schema[key] if b is not True and b != {}]
     if len(branches) != 1:
         return False
     branch = branches[0]
